@@ -106,8 +106,9 @@ def make_frame(tok):
     raise AssertionError(c)
 
 
-def frame_matches_token(frame):
-    """The delivered frame must carry exactly the image bytes and data published for its token."""
+def frame_matches_token(frame, raw_only=False):
+    """The delivered frame must carry exactly the image bytes and data published for its token.  raw_only: every
+    publisher on the way was configured outputs_jpg=False, so raw content must arrive raw and bit-exact."""
     tok = {k: frame.data.get(k) for k in ('o', 'oi', 'seq', 'tp', 'c')}
     ref = make_frame(tok)
     if frame.data != ref.data:
@@ -126,7 +127,7 @@ def frame_matches_token(frame):
             return 'jpg-backed image differs beyond codec tolerance'
         return None
     a = frame.image
-    if ref.has_image and frame.has_jpg and not ref.has_jpg:
+    if ref.has_image and frame.has_jpg and not ref.has_jpg and not raw_only:
         # sent as jpg (outputs_jpg=True): tolerance rule of C09 (random pixels compress badly, so only shape + coarse error)
         return None if a.shape == ref.image.shape else 'shape changed by jpg transport'
     if not np.array_equal(a, ref.image):
@@ -308,9 +309,11 @@ def make_filter_classes():
                 d = f.data if isinstance(f.data, dict) else {}
                 ins[t] = {k: d.get(k) for k in ('o', 'oi', 'seq', 'tp', 'c')} if 'o' in d else {'hidden': sorted(d)[:4]}
                 if 'o' in d and beh.get('check_content', True):
-                    m = frame_matches_token(f)
+                    m = frame_matches_token(f, raw_only=world().scn.get('outputs_jpg') is False)
                     if m:
                         bad.append((t, m))
+                if beh.get('touch_jpg') and f.has_image:
+                    f.jpg                        # a side channel of this filter (thumbnail, web preview) takes the encoded form of the frame it forwards
             self._log('process', n=self.vn, ins=ins, bad=bad or None)
             self._inject('process', self.vn)
             seqs = [k['seq'] for k in ins.values() if 'seq' in k]
